@@ -33,7 +33,7 @@ COMMON = dict(pure=PURE, unpack_types={'noise': 'real'}, local_types={'variances
 
 class ModelCtorHooks:
     """The model constructors of _setup: each call yields a fresh object whose `total` attribute is the constructor's third
-    argument (ASSUMED constructor contract; GraphicalModel / RegionGraph / FactorGraph __init__ store it: `self.total = total`),
+    argument (the constructor contract `self.total is total` is checked on the three __init__ bodies: pv/ded/C09.py),
     so that the postcondition can say what the INSTALLED model's total is, whichever way the model was obtained."""
     def __init__(self, ctor_names):
         self.ctors = set(ctor_names)
